@@ -54,6 +54,11 @@ pub fn scenarios(prop: &str, tier: &str) -> Vec<Scenario> {
         match prop {
             "C01" => {
                 worlds = b.subset_worlds();
+                if !thorough {
+                    // quick tier: the 8 obstacle subsets with an even number of obstacles (every obstacle
+                    // and every pair of obstacles still occurs); thorough: all 16
+                    worlds.retain(|w| w.obst.len() % 2 == 0);
+                }
                 worlds.push(b.world_named("marginal-start", vec![b.marginal.clone()]));
                 worlds.push(b.world_named("goal-overlap", vec![b.goal_overlap.clone()]));
                 worlds.push(b.world_named("goal-overlap+subset0101", vec![b.goal_overlap.clone(), b.obstacles[0].clone(), b.obstacles[2].clone()]));
@@ -664,6 +669,8 @@ fn run_kit<K: Kit>(prop: &'static str, tier: &'static str, scs: &[(usize, Scenar
     let mut shard_list: Vec<(usize, Shard)> = Vec::new();
     for (idx, sc) in scs {
         let letters: Vec<u8> = (0..sc.alphabet.len() as u8).collect();
+        // the fine-resolution scenarios cost thousands of validity queries per motion: one level less
+        let depth = if sc.tag.contains("/fine") && tier == "quick" { depth - 1 } else { depth };
         for sh in shards(std::slice::from_ref(sc), &letters, depth) {
             shard_list.push((*idx, sh));
         }
